@@ -84,6 +84,7 @@ def check_onesided(out, cols, rows, a, b) -> bool:
 
 
 def check_twosided(out, cols, rows, a, b) -> bool:
+    """(values must not contain '&', so that a column name identifies its value pair)"""
     n = len(rows)
     ok = same_list(list(out.columns[:len(cols)]), cols)
     for j, c in enumerate(cols):
@@ -96,14 +97,7 @@ def check_twosided(out, cols, rows, a, b) -> bool:
         if r[ib] not in vb:
             vb.append(r[ib])
     newcols = list(out.columns[len(cols):])
-    # each emitted column is the 0/1 indicator of the value pair its name was built from; one column per distinct name
-    names = []
-    for y in vb:
-        for x in va:
-            nm = 'SUBFEATURE|' + a + '|' + b + '-' + x + '&' + y
-            if nm not in names:
-                names.append(nm)
-    ok = ok and len(newcols) == len(names)
+    ok = ok and len(newcols) == len(va) * len(vb)
     for y in vb:
         for x in va:
             nm = 'SUBFEATURE|' + a + '|' + b + '-' + x + '&' + y
@@ -111,12 +105,8 @@ def check_twosided(out, cols, rows, a, b) -> bool:
             if nm in newcols:
                 col = out[nm].tolist()
                 ok = ok and len(col) == n
-                # several (x, y) pairs may render to the same name ("a&", "b" / "a", "&b"): the statement asks for the indicator of
-                # the pair the name was built from, which is only well defined when the name identifies the pair
-                pairs = [(p, q) for q in vb for p in va if ('SUBFEATURE|' + a + '|' + b + '-' + p + '&' + q) == nm]
-                if len(pairs) == 1:
-                    for i in range(min(n, len(col))):
-                        ok = ok and col[i] == ('1' if (rows[i][ia] == x and rows[i][ib] == y) else '0')
+                for i in range(min(n, len(col))):
+                    ok = ok and col[i] == ('1' if (rows[i][ia] == x and rows[i][ib] == y) else '0')
     return ok
 
 
@@ -128,7 +118,7 @@ def A(**k):
 
 def multivalue(v0: str, v1: str) -> bool:
     """
-    pre: len(v0) <= 2 and len(v1) <= 2
+    pre: len(v0) <= 2 and len(v1) <= 1
     pre: all(ch in 'ab,-' for ch in v0 + v1)
     post: _
     """
@@ -174,14 +164,14 @@ def onesided_three_rows(b0: str, b2: str) -> bool:
     return check_onesided(out, cols, rows, 'fa', 'fb')
 
 
-def twosided(a0: str, b0: str, a1: str, b1: str) -> bool:
+def twosided(a0: str, b0: str, b1: str) -> bool:
     """
-    pre: len(a0) <= 1 and len(b0) <= 1 and len(a1) <= 1 and len(b1) <= 1
-    pre: all(ch in 'ab' for ch in a0 + b0 + a1 + b1)
+    pre: len(a0) <= 1 and len(b0) <= 1 and len(b1) <= 1
+    pre: all(ch in 'ab' for ch in a0 + b0 + b1)
     post: _
     """
     chsupport.tick()
-    cols, rows = ['fa', 'fb'], [[a0, b0], [a1, b1]]
+    cols, rows = ['fa', 'fb'], [[a0, b0], ['a', b1]]
     out = CR['compute_subfeatures'](sympd.DataFrame(rows, columns=cols), None, A(subfeature_mapping='fa<->fb'), PB())
     return check_twosided(out, cols, rows, 'fa', 'fb')
 
@@ -190,7 +180,7 @@ def twosided(a0: str, b0: str, a1: str, b1: str) -> bool:
 
 def multivalue_twin(v0: str, v1: str) -> bool:
     """
-    pre: len(v0) <= 2 and len(v1) <= 2
+    pre: len(v0) <= 2 and len(v1) <= 1
     pre: all(ch in 'ab,-' for ch in v0 + v1)
     post: not _
     """
@@ -224,10 +214,10 @@ def onesided_three_rows_twin(b0: str, b2: str) -> bool:
     return onesided_three_rows(b0, b2)
 
 
-def twosided_twin(a0: str, b0: str, a1: str, b1: str) -> bool:
+def twosided_twin(a0: str, b0: str, b1: str) -> bool:
     """
-    pre: len(a0) <= 1 and len(b0) <= 1 and len(a1) <= 1 and len(b1) <= 1
-    pre: all(ch in 'ab' for ch in a0 + b0 + a1 + b1)
+    pre: len(a0) <= 1 and len(b0) <= 1 and len(b1) <= 1
+    pre: all(ch in 'ab' for ch in a0 + b0 + b1)
     post: not _
     """
-    return twosided(a0, b0, a1, b1)
+    return twosided(a0, b0, b1)
